@@ -738,6 +738,13 @@ def runASpec (s : Bool × Spec.Audit Out Int) (ops : List AOp) : Bool × Spec.Au
 
 /-! ### one call of `Engine::process`, as far as the shape of its audit is concerned
 
+The event alphabet `EngEv` has ten events: Shutdown, the four commands (SendCancelRequests,
+SendOpenRequests, CancelOrders, ClosePositions), trading on / off, an account balance item, the market /
+account reconnecting notices. What user code or the engine's state contributes is an input: the algo
+requests of the tick, the requests a `ClosePositionsStrategy` returns, the cancel requests
+`cancel_orders` derives from the tracked orders. Not modelled here: account items that exit a position
+and market items (same `update` path, another first-stage output), `Unhealthy` / missing links.
+
 A request is `(exchange, client order id)`. A send to an exchange whose link is dead fails with an
 unrecoverable error naming the exchange (`send_request`, send_requests.rs:74-117; with unbounded
 channels there is no recoverable failure); the scripted risk manager refuses the requests with
@@ -762,18 +769,40 @@ def generateAlgoOrders (dead : Nat → Bool) (cancels opens : List Req) : GenOut
 
 inductive EngEv where
   | shutdown
+  /-- `Command::SendCancelRequests(requests)` -/
   | cmdCancel (reqs : List Req)
+  /-- `Command::SendOpenRequests(requests)` -/
   | cmdOpen (reqs : List Req)
   | tsOn
   | tsOff
+  /-- an ACCOUNT stream item (a balance snapshot): it updates the state and produces no output. The
+  constructor name is historical - it is not a market event. -/
   | mkt
+  /-- `MarketStreamEvent::Reconnecting` -/
   | mktRe
+  /-- `AccountStreamEvent::Reconnecting` -/
   | accRe
+  /-- `Command::CancelOrders(filter)` (action/cancel_orders.rs:41-60): `reqs` are the cancel requests
+  `cancel_orders` derives from the tracked orders selected by the filter, in the order it iterates
+  them (which orders those are is C19's subject; here they are an input). No risk check. -/
+  | cmdCancelOrders (reqs : List Req)
+  /-- `Command::ClosePositions(filter)` (action/close_positions.rs:49-68): `cancels` / `opens` are what
+  the `ClosePositionsStrategy` returned (user code, an input). No risk check; the cancels are sent
+  first, then the opens; the output is `SendCancelsAndOpensOutput`. -/
+  | cmdClose (cancels opens : List Req)
   deriving Repr
 
 def EngEv.terminal : EngEv → Bool
   | .shutdown => true
   | _ => false
+
+/-- the `EngineEvent::Command` arm of the first `match` of `Engine::process` (engine/mod.rs:150-158):
+`errs` is the per-variant `NoneOneOrMany` of `ActionOutput::unrecoverable_errors` before its
+`.into_option()` -/
+def cmdPre (ev : EngEv) (errs : NOM Nat) (enabled : Bool) : Pre EngEv Out Nat × Bool :=
+  match errs.intoOption with
+  | some u => (.commandFatal ev u .cmd, enabled)
+  | none => (.command ev .cmd, enabled)
 
 /-- the first `match` of `Engine::process` (engine/mod.rs:146-169) and the trading state after it -/
 def enginePre (dead : Nat → Bool) (enabled : Bool) (ev : EngEv) : Pre EngEv Out Nat × Bool :=
@@ -794,6 +823,19 @@ def enginePre (dead : Nat → Bool) (enabled : Bool) (ev : EngEv) : Pre EngEv Ou
   | .mkt => (.update ev none, enabled)
   | .mktRe => (.update ev (some (.md 0)), enabled)
   | .accRe => (.update ev (some (.ad 0)), enabled)
+  | .cmdCancelOrders reqs =>
+    -- `ActionOutput::CancelOrders(self.cancel_orders(filter))` (engine/mod.rs:232-235)
+    let out : ActOut := .cancelOrders (sendRequests dead reqs)
+    match out.unrecoverableErrors with
+    | some u => (.commandFatal ev u .cmd, enabled)
+    | none => (.command ev .cmd, enabled)
+  | .cmdClose cancels opens =>
+    -- `ActionOutput::ClosePositions(self.close_positions(filter))` (engine/mod.rs:228-231):
+    -- `send_requests(cancels)`, then `send_requests(opens)` (close_positions.rs:59-60)
+    let out : ActOut := .closePositions ⟨sendRequests dead cancels, sendRequests dead opens⟩
+    match out.unrecoverableErrors with
+    | some u => (.commandFatal ev u .cmd, enabled)
+    | none => (.command ev .cmd, enabled)
 
 /-- `Engine::process`: the audit -/
 def engineAudit (dead : Nat → Bool) (enabled : Bool) (ev : EngEv) (algoC algoO : List Req) :
@@ -806,24 +848,57 @@ def engineAudit (dead : Nat → Bool) (enabled : Bool) (ev : EngEv) (algoC algoO
 def failedSends (dead : Nat → Bool) (reqs : List Req) : List Nat :=
   (reqs.filter fun r => dead r.1).map (·.1)
 
+/-- the unrecoverable send failures of a command's own requests, as (cancel side, open side), each in
+request order -/
+def cmdErrorParts (dead : Nat → Bool) : EngEv → List Nat × List Nat
+  | .cmdCancel r => (failedSends dead r, [])
+  | .cmdCancelOrders r => (failedSends dead r, [])
+  | .cmdOpen r => ([], failedSends dead r)
+  | .cmdClose c o => (failedSends dead c, failedSends dead o)
+  | _ => ([], [])
+
+/-- a command's own sends failed unrecoverably -/
+def cmdFailed (dead : Nat → Bool) (ev : EngEv) : Bool :=
+  !((cmdErrorParts dead ev).1 ++ (cmdErrorParts dead ev).2).isEmpty
+
+/-- the trading state after the event -/
+def enabledAfter (enabled : Bool) : EngEv → Bool
+  | .tsOn => true
+  | .tsOff => false
+  | _ => enabled
+
+/-- the unrecoverable send failures of the stage of one `Engine::process` that failed, as (cancel side,
+open side), each in request order: a command's own sends; otherwise, if generation runs, the approved
+algo cancels and the approved algo opens. -/
+def specErrorParts (dead : Nat → Bool) (enabled : Bool) (ev : EngEv) (algoC algoO : List Req) :
+    List Nat × List Nat :=
+  if cmdFailed dead ev then cmdErrorParts dead ev
+  else if enabledAfter enabled ev && !ev.terminal then
+    (failedSends dead (algoC.filter (!refused ·)), failedSends dead (algoO.filter (!refused ·)))
+  else ([], [])
+
 /-- abstract reading of the errors of one `Engine::process` audit: the unrecoverable errors of the
-stage that failed, in request order (a command's own sends; otherwise, if generation runs, the
-approved algo cancels followed by the approved algo opens). -/
+stage that failed, in request order, cancels before opens (a command's own sends; otherwise, if
+generation runs, the approved algo cancels followed by the approved algo opens). -/
 def specEngineErrors (dead : Nat → Bool) (enabled : Bool) (ev : EngEv) (algoC algoO : List Req) : List Nat :=
-  let cmdErrs :=
-    match ev with
-    | .cmdCancel r => failedSends dead r
-    | .cmdOpen r => failedSends dead r
-    | _ => []
-  let enabled' :=
-    match ev with
-    | .tsOn => true
-    | .tsOff => false
-    | _ => enabled
-  if !cmdErrs.isEmpty then cmdErrs
-  else if enabled' && !ev.terminal then
-    failedSends dead (algoC.filter (!refused ·)) ++ failedSends dead (algoO.filter (!refused ·))
-  else []
+  (specErrorParts dead enabled ev algoC algoO).1 ++ (specErrorParts dead enabled ev algoC algoO).2
+
+/-- The one shape of (cancel side, open side) on which `extend` does not keep "cancels, then opens":
+exactly one item `k` on the cancel side and two or more items, not all equal to `k`, on the open
+side (`One(k).extend(opens)` = `Many(opens ++ [k])`). Decidable form of the right-hand side of
+`nom_extend_order_iff` for a canonical `self`. -/
+def Spec.reorders {α : Type} [BEq α] (c o : List α) : Bool :=
+  match c with
+  | [k] => decide (2 ≤ o.length) && o.any (· != k)
+  | _ => false
+
+/-- the length class that determines the variant of a canonical value: 0, 1, "2 or more" -/
+def Spec.lenClass {α : Type} (l : List α) : Nat := min l.length 2
+
+/-- abstract reading of the derived `Ord` on values whose representation is determined by the
+sequence: the length class first, the lexicographic order of the items within a class -/
+def Spec.cmpSeq (l r : List Int) : Ordering :=
+  if Spec.lenClass l = Spec.lenClass r then NOM.cmpList l r else compare (Spec.lenClass l) (Spec.lenClass r)
 
 /-- what the first stage of `Engine::process` reports for an event -/
 def firstOutputs (enabled : Bool) : EngEv → List Out
@@ -835,18 +910,8 @@ def firstOutputs (enabled : Bool) : EngEv → List Out
   | .mkt => []
   | .mktRe => [.md 0]
   | .accRe => [.ad 0]
-
-/-- a command's own sends failed unrecoverably -/
-def cmdFailed (dead : Nat → Bool) : EngEv → Bool
-  | .cmdCancel r => !(failedSends dead r).isEmpty
-  | .cmdOpen r => !(failedSends dead r).isEmpty
-  | _ => false
-
-/-- the trading state after the event -/
-def enabledAfter (enabled : Bool) : EngEv → Bool
-  | .tsOn => true
-  | .tsOff => false
-  | _ => enabled
+  | .cmdCancelOrders _ => [.cmd]
+  | .cmdClose _ _ => [.cmd]
 
 /-- abstract reading of the outputs of one `Engine::process` audit: what the first stage produced (the
 command's output, the on-trading-disabled / on-disconnect output), followed by the AlgoOrders output
